@@ -214,6 +214,7 @@ func (fx *FuncCtx) havocMonitor(st *State, nt *types.Named, md *MonitorDecl, ref
 					f := fx.decls.fresh("hv$"+g+"$arr", "(Array "+fx.mode.lenSort()+" "+ec.sort+")")
 					fx.assumeArrayTyping(st, f, sl.Elem(), ec)
 					fx.heapSet(st, k, sx("store", fx.heapGet(st.heap, k), nv.C[0], f))
+					st.exempt = append(append([]string(nil), st.exempt...), k.Key+"|"+nv.C[0])
 				}
 				fx.assumeOwnedDistinct(st, nv.C[0])
 			}
@@ -380,7 +381,11 @@ func (fx *FuncCtx) builtin(st *State, b *ssa.Builtin, args []Val, rt types.Type,
 		kc := HeapKey{"CH$closed", "(Array Int Bool)"}
 		cur := fx.heapGet(st.heap, kc)
 		fx.nilCheck(st, ch, pos, "close of nil channel")
-		fx.oblige(st, "safe", "close", not(sx("select", cur, ch)), pos, "close of an already closed channel")
+		if len(st.held) == 0 && fx.fc.Opts["trust_unlocked_close"] != "" {
+			fx.trusted["close(ch) outside the lock in "+fx.key+" is assumed not to hit a closed channel (needs an ownership argument outside the monitor)"] = true
+		} else {
+			fx.oblige(st, "safe", "close", not(sx("select", cur, ch)), pos, "close of an already closed channel")
+		}
 		fx.heapSet(st, kc, sx("store", cur, ch, "true"))
 		return Val{}
 	case "min", "max":
@@ -589,6 +594,9 @@ func (fx *FuncCtx) applyContract(st *State, callee *ssa.Function, fc *FuncContra
 		st.assume(t)
 	}
 	genv = fx.localsEnv(st, st.heap, map[string]string{})
+	if rt != nil && res.Tup == nil {
+		genv.vars["result$"] = res
+	}
 	fx.runGhost(st, "after "+site, genv, pos)
 	return res
 }
@@ -774,6 +782,9 @@ func (fx *FuncCtx) frameObligations(st *State, env *SpecEnv, pos token.Pos) {
 		if srt == "" {
 			continue
 		}
+		if fx.eng.isMonitorGuardedKey(key) {
+			continue // guarded state of a monitor can change at any time (other goroutines); it is never framed
+		}
 		if strings.HasPrefix(key, "BOX$") || strings.HasPrefix(key, "CH$") || strings.HasPrefix(key, "ML$") || strings.HasPrefix(key, "MD$") || strings.HasPrefix(key, "MV$") {
 			// boxed values / channel and map ghosts: covered by map/chan modifies below
 			if a := allowed[key]; a != nil || strings.HasPrefix(key, "BOX$") {
@@ -827,6 +838,14 @@ func (fx *FuncCtx) frameObligations(st *State, env *SpecEnv, pos token.Pos) {
 			hy = append(hy, not(eq(o, mref)))
 		}
 		goal := eq(sx("select", final, o), sx("select", entry, o))
+		if strings.HasPrefix(key, "A$") {
+			// arrays owned by a monitor are guarded state of that monitor
+			for _, ex := range st.exempt {
+				if strings.HasPrefix(ex, key+"|") {
+					hy = append(hy, not(eq(o, ex[len(key)+1:])))
+				}
+			}
+		}
 		if strings.HasPrefix(key, "A$") && a != nil && len(a.elems) > 0 {
 			// `modifies x[*]` allows the whole backing array of x to change
 			for _, t := range a.elems {
